@@ -199,7 +199,7 @@ PROPS["C11"] = {
     "technique": "lock-discipline analysis (Coq, proved sound over all paths incl. loops) run inside Coq on the action lists the translator regenerates from env/env.go; scope-isolation theorems on the evaluator model's heap of frames; "
                  "correspondence = batches of generator and hand-written programs evaluated concurrently on one environment vs the same programs alone (and vs the evaluator model), under the Go race detector",
     "level_text": "Proved: (race freedom of scopes) every function of env.go, on every path — any branch, any number of loop iterations — reads the bindings map only under the scope's read or write lock, writes it only under the write lock, never locks twice, "
-                  "returns with its locks balanced; the *NT variants are only called with the lock held, the public entry points with it free (analysis proved sound; its verdict is recomputed on the regenerated action lists at every run). "
+                  "returns with its locks balanced; the *NT variants are only called with the lock held, the public entry points with it free (analysis proved sound; its verdict is recomputed on the regenerated action lists at every run); and from that, against an RWMutex that is exclusive for writers, shared for readers and blocking: any number of threads each running any path of any entry point of env.go on one scope, under every schedule, never have a pending write to the bindings map coexisting with another thread's pending read or write (C11_scope_race_free). "
                   "(isolation, evaluator model) a binding goes into exactly one frame; a new let/call/catch scope gets an identifier that is on no existing chain; a lookup reads the frames of its own outer chain only; hence a scope another evaluation allocates and binds in is invisible from every pre-existing scope. "
                   "Not proved (partial): the whole-program statement 'each evaluation returns what it returns alone' for the concurrent evaluator (the model is sequential; goroutine interleaving of EVAL is not modelled) — decided on executions: 80/700 batches of 2-8 programs "
                   "(C01-generator programs with per-thread names; shapes sharing LOCAL names, catch variables, gensym temporaries, memoize, own atoms/futures, futures reading their enclosing let/parameter scope while the parent defines into it) give the solo result and trace, the generator programs also the model's prediction; 0 data races. "
